@@ -23,6 +23,9 @@ CLAIMED = {
  "C19": ("effect / must-fact / loop-structure analysis of the eager transitive registration, must-pass-through on the CFG of add_argument, sibling agreement of parser-creation sites",
          "Decides, for every acyclic parent declaration, the mechanism the property rests on: the transitive closure is wired (new parser registered in each parent and in every earlier parser that has the parent as dependent, then entered into the registry), every insert that can repeat a (receiver, key) pair is guarded or the primitive is idempotent (diamonds / ancestor-and-descendant parents), options always reach argparse and are forwarded once to each dependent, both creation sites inherit the common options, parents are asserted before lookup, and the default-command / colour normalisation conditions are as stated.",
          "argparse's own behaviour (parents=, conflict handling, SystemExit) is trusted; that the wiring implies the set-level invariant is the induction argument written in DESIGN.md 3/C19, not machine-checked.", "3/C19"),
+ "C14": ("finite abstract interpretation of resolve() and get_color() over representative colour tokens, guard / ordering / def-use rules on registration, cache reset and global re-sync, constant folding of the modifier table",
+         "Decides the mechanism of inheritance exhaustively over a finite token domain (own '' / '-' / colour x parent absent / coloured / default, fg and bg, with and without no_color: what reaches ColorFmt, and that '' and '-' never do), first-registration-wins with the explicit configuration first, retry of all pending items with chains resolved from the resolved ancestor outwards, cache reset and synced-palette re-sync on change, no_color => effect-free formatter, lookup fallbacks, and the description grammar tables.",
+         "Order-independence over all registration histories as such is NOT decided (it follows from these mechanisms by an induction that is not machine-checked); conflicting duplicate descriptions are outside the property.", "3/C14"),
 }
 
 NOT_APPLICABLE = {
